@@ -125,4 +125,185 @@ theorem direct_fragment_inhabited :
           obtain ⟨rfl, rfl⟩ := hfp
           exact ⟨r, c', p, c2, h1, h2', hne, hc, hd hne⟩
 
+/-! ### through the factor planner: prefixed single-factor units -/
+
+/-- every shipped base unit whose dimension has weight one and no negative exponent has a dimension
+    the planner handles (`C05.Fundamental`) -/
+def fundamentalOk (s : St) : Bool :=
+  s.units.all (fun r => !(decide (r.dim.weight ≤ 1) && !r.dim.any (fun x => decide (x < 0)) && decide (r.dim.weight = 1)) ||
+    (r.dim.isFactor r.dim && (r.dim.div r.dim).isNumber))
+
+theorem shipped_fundamental_dimensions : fundamentalOk init = true := by decide +kernel
+
+def kilo : Pfx := ⟨10, 3⟩
+def milli : Pfx := ⟨10, -3⟩
+def kB : UId := match (c4.st.pmulUnit kilo B).2 with | .ok i => i | .error _ => 0
+def c5 : Conv Rat := { c4 with st := run c4.st [Op.pmul kilo B] }
+def mA : UId := match (c5.st.pmulUnit milli A).2 with | .ok i => i | .error _ => 0
+def c6 : Conv Rat := { c5 with st := run c5.st [Op.pmul milli A] }
+
+theorem reach6 : Reach σd c6 := Reach.units [Op.pmul milli A] (Reach.units [Op.pmul kilo B] reach4)
+
+def q5k : Qty Rat := ⟨.int 5, kB⟩
+def singleCheck : Bool :=
+  match (CM.exec (convert q5k mA) c6).1 with
+  | .ok r => decide (r.mag.val = 20000000) && decide (r.unit = mA)
+  | .error _ => false
+
+theorem single_evaluates : singleCheck = true := by decide +kernel
+
+theorem single_records :
+    kB < c6.st.units.length ∧ mA < c6.st.units.length ∧ A < c6.st.units.length ∧ B < c6.st.units.length ∧
+    (c6.st.unit! kB).factors = [(B, 1)] ∧ (c6.st.unit! mA).factors = [(A, 1)] ∧
+    (c6.st.unit! B).pfx = Pfx.identity ∧ (c6.st.unit! B).factors = [(B, 1)] ∧
+    (c6.st.unit! A).pfx = Pfx.identity ∧ (c6.st.unit! A).factors = [(A, 1)] ∧
+    c6.st.dimOfUnit B = c6.st.dimOfUnit A := by decide +kernel
+
+def fundamentalB (d : Dim) : Bool :=
+  decide (d.weight ≤ 1) && d.isFactor d && (d.div d).isNumber && !d.any (fun x => decide (x < 0))
+
+theorem single_dim_check : fundamentalB (c6.st.dimOfUnit A) = true := by decide +kernel
+
+theorem single_dim_fundamental : C05.Fundamental (c6.st.dimOfUnit A) := by
+  have h := single_dim_check
+  unfold fundamentalB at h
+  simp only [Bool.and_eq_true, decide_eq_true_eq, Bool.not_eq_true'] at h
+  exact ⟨h.1.1.1, h.1.1.2, h.1.2, h.2⟩
+
+set_option maxRecDepth 8000 in
+/-- **The hypotheses of `C05.single_factor_conversion_exact` are inhabited**: 5 kB → mA goes through the
+    factor planner (the direct search between the prefixed units finds nothing) and the theorem's
+    conclusion `result · size(mA) = 5 · size(kB)` holds for the kernel-computed result 2·10⁷. -/
+theorem single_factor_inhabited :
+    ∃ (r : Qty Rat) (c' : Conv Rat), CM.exec (convert q5k mA) c6 = (.ok r, c') ∧ r.mag.val = 20000000 ∧
+      r.mag.val * unitSz σd c6.st mA = q5k.mag.val * unitSz σd c6.st q5k.unit := by
+  have hc := single_evaluates
+  unfold singleCheck at hc
+  cases h1 : CM.exec (convert q5k mA) c6 with
+  | mk r1 c' =>
+    cases r1 with
+    | error e => rw [h1] at hc; cases hc
+    | ok r =>
+      rw [h1] at hc
+      simp only [Bool.and_eq_true, decide_eq_true_eq] at hc
+      obtain ⟨hq, ht, ha, hb, f1, f2, b1, b2, a1, a2, hd⟩ := single_records
+      obtain ⟨_, hv⟩ := C05.single_factor_conversion_exact σd_ne reach6 (q := q5k) (t := mA) (u := B) (v := A)
+        (d := c6.st.dimOfUnit A) hq ht hb ha f1 f2 ⟨b1, b2⟩ ⟨a1, a2⟩ hd rfl single_dim_fundamental h1
+      exact ⟨r, c', rfl, hc.1, hv⟩
+
+/-! ### through the factor planner: a compound unit with two keys (a speed) -/
+
+def sIdx : UId := (lookup "second" init.unitByName).getD 0
+def hIdx : UId := (lookup "hour" init.unitByName).getD 0
+/-- 1 hour = 3600 second, declared in the demo graph -/
+def c7 : Conv Rat := (CM.exec (equate ⟨.int 1, hIdx⟩ ⟨.int 3600, sIdx⟩) c6).2
+def σs : UId → Rat := fun k => if k = A then 3 else if k = B then 12 else if k = hIdx then 3600 else 1
+
+theorem σs_ne (k : UId) : σs k ≠ 0 := by unfold σs; split_ifs <;> norm_num
+
+/-- the same history with the hour also given its size -/
+theorem reach7 : Reach σs c7 := by
+  have g1 : GraphOK σs c1 :=
+    ⟨c1_canon, c1_ginv.1, c1_ginv.2, by decide +kernel, by intro a b m h; simp [c1, c0, Table.row] at h,
+     by intro a b m h; simp [c1, c0, Table.row] at h⟩
+  have r1 : Reach σs c1 := Reach.init g1 c1_graphWF rfl
+  have r2 : Reach σs c2 := Reach.equate (a := ⟨.int 1, A⟩) (b := ⟨.int 3, mIdx⟩) r1 (by decide +kernel) (by decide +kernel)
+    (by decide +kernel) (by decide +kernel) (exec_unit_of_isOk (by decide +kernel))
+  have r3 : Reach σs c3 := Reach.equate (a := ⟨.int 1, B⟩) (b := ⟨.int 4, A⟩) r2 (by decide +kernel) (by decide +kernel)
+    (by decide +kernel) (by decide +kernel) (exec_unit_of_isOk (by decide +kernel))
+  have r6 : Reach σs c6 := Reach.units [Op.pmul milli A] (Reach.units [Op.pmul kilo B] (Reach.units powers r3))
+  exact Reach.equate (a := ⟨.int 1, hIdx⟩) (b := ⟨.int 3600, sIdx⟩) r6 (by decide +kernel) (by decide +kernel)
+    (by decide +kernel) (by decide +kernel) (exec_unit_of_isOk (by decide +kernel))
+
+/-- kB/h and mA/s -/
+def c8 : Conv Rat := { c7 with st := run c7.st [Op.div kB hIdx, Op.div mA sIdx] }
+def kBh : UId := match (c7.st.divUnit kB hIdx).2 with | .ok i => i | .error _ => 0
+def mAs : UId := match ((c7.st.divUnit kB hIdx).1.divUnit mA sIdx).2 with | .ok i => i | .error _ => 0
+theorem reach8 : Reach σs c8 := Reach.units _ reach7
+
+def Kspeed : List Dim := [c8.st.dimOfUnit A, (c8.st.dimOfUnit sIdx).pow (-1)]
+
+def keysOkB (K : List Dim) : Bool :=
+  K.all (fun d => d.isFactor d && (d.div d).isNumber && !d.isNumber && decide (d.weight ≤ 1)) &&
+  K.all (fun d => K.all (fun d' => d' == d || !d'.isFactor d))
+
+theorem keysOkB_sound {K : List Dim} (h : keysOkB K = true) : KeysOK K ∧ ∀ d ∈ K, d.weight ≤ 1 := by
+  unfold keysOkB at h
+  simp only [Bool.and_eq_true, List.all_eq_true, decide_eq_true_eq, Bool.or_eq_true, beq_iff_eq,
+    Bool.not_eq_true'] at h
+  obtain ⟨h1, h2⟩ := h
+  refine ⟨⟨fun d hd => ⟨(h1 d hd).1.1.1, (h1 d hd).1.1.2, (h1 d hd).1.2⟩, ?_⟩, fun d hd => (h1 d hd).2⟩
+  intro d hd d' hd' hne
+  rcases h2 d hd d' hd' with h | h
+  · exact absurd h hne
+  · exact h
+
+theorem speed_keys : keysOkB Kspeed = true := by decide +kernel
+
+def factorOkB (K : List Dim) (s : St) (σ : UId → Rat) (f : UId × Int) : Bool :=
+  (if f.2 < 0 then decide (sgn ((s.dimOfUnit f.1).pow (-1)) = -1) && K.contains ((s.dimOfUnit f.1).pow (-1))
+   else decide (sgn (s.dimOfUnit f.1) = 1) && K.contains (s.dimOfUnit f.1)) &&
+  decide (f.1 < s.units.length) &&
+  ((s.unit! f.1).pfx == Pfx.identity && (s.unit! f.1).factors == [(f.1, 1)])
+
+theorem factorOkB_sound {K : List Dim} {s : St} {σ : UId → Rat} {f : UId × Int} (h : factorOkB K s σ f = true) :
+    FactorOK K s f ∧ f.1 < s.units.length ∧ unitSz σ s f.1 = σ f.1 := by
+  unfold factorOkB at h
+  simp only [Bool.and_eq_true, decide_eq_true_eq, beq_iff_eq] at h
+  obtain ⟨⟨h1, h2⟩, h3, h4⟩ := h
+  refine ⟨?_, h2, ?_⟩
+  · unfold FactorOK
+    constructor
+    · intro hlt
+      simp only [hlt, ↓reduceIte, Bool.and_eq_true, decide_eq_true_eq, List.contains_iff_mem] at h1
+      exact h1
+    · intro hlt
+      simp only [hlt, ↓reduceIte, Bool.and_eq_true, decide_eq_true_eq, List.contains_iff_mem] at h1
+      exact h1
+  · unfold unitSz
+    rw [h3, h4, Pfx.val_identity]; simp
+
+def q5v : Qty Rat := ⟨.int 5, kBh⟩
+def speedCheck : Bool :=
+  (match (CM.exec (convert q5v mAs) c8).1 with
+   | .ok r => decide (r.mag.val = 50000 / 9) && decide (r.unit = mAs)
+   | .error _ => false) &&
+  decide (kBh < c8.st.units.length) && decide (mAs < c8.st.units.length) &&
+  (c8.st.unit! kBh).factors.all (factorOkB Kspeed c8.st σs) && (c8.st.unit! mAs).factors.all (factorOkB Kspeed c8.st σs) &&
+  (match matchSpec (splat c8.st mAs).byComplexFirst (splat c8.st kBh) (splat c8.st mAs) [] with
+   | some (s', t', _) => s'.isEmpty && t'.isEmpty
+   | none => false)
+
+theorem speed_evaluates : speedCheck = true := by decide +kernel
+
+set_option maxRecDepth 8000 in
+/-- **The hypotheses of `C05.simple_conversion_exact` are inhabited**: 5 kB/h → mA/s on the regenerated
+    registries goes through `_match_factors` with two keys (length, 1/time); the kernel computes 50000/9
+    and the theorem gives `result · size(mA/s) = 5 · size(kB/h)`. -/
+theorem simple_inhabited :
+    ∃ (r : Qty Rat) (c' : Conv Rat), CM.exec (convert q5v mAs) c8 = (.ok r, c') ∧ r.mag.val = 50000 / 9 ∧
+      r.mag.val * unitSz σs c8.st mAs = q5v.mag.val * unitSz σs c8.st q5v.unit := by
+  have hc := speed_evaluates
+  unfold speedCheck at hc
+  simp only [Bool.and_eq_true, decide_eq_true_eq, List.all_eq_true] at hc
+  obtain ⟨⟨⟨⟨⟨hconv, hq⟩, ht⟩, hfs⟩, hft⟩, hspec⟩ := hc
+  obtain ⟨hK, hKw⟩ := keysOkB_sound speed_keys
+  cases h1 : CM.exec (convert q5v mAs) c8 with
+  | mk r1 c' =>
+    cases r1 with
+    | error e => rw [h1] at hconv; simp at hconv
+    | ok r =>
+      rw [h1] at hconv
+      simp only [Bool.and_eq_true, decide_eq_true_eq] at hconv
+      cases hm : matchSpec (splat c8.st mAs).byComplexFirst (splat c8.st kBh) (splat c8.st mAs) [] with
+      | none => rw [hm] at hspec; simp at hspec
+      | some res =>
+        obtain ⟨s', t', plan⟩ := res
+        rw [hm] at hspec
+        simp only [Bool.and_eq_true, List.isEmpty_iff] at hspec
+        obtain ⟨rfl, rfl⟩ := hspec
+        obtain ⟨_, hv⟩ := C05.simple_conversion_exact σs_ne hK hKw reach8 (q := q5v) (t := mAs) hq ht
+          (fun f hf => factorOkB_sound (hfs f hf)) (fun f hf => factorOkB_sound (hft f hf)) hm h1
+        exact ⟨r, c', rfl, hconv.1, hv⟩
+
 end Measured.Obligations.Direct
